@@ -4,7 +4,7 @@ from __future__ import annotations
 import asyncio
 import random
 
-from . import common, e2
+from . import c09_cases, common, e2
 
 PID = "C09"
 PROPS_FILE = "props/C09.v"
@@ -53,12 +53,38 @@ def _traces(ctx, n, length, tag=""):
     return out
 
 
+PER_TRACE = ("e2", "inv_b", "inv_succeeded_b", "inv_treefile_b", "protocol_ok_run_t", "inv_full_b",
+             "inv_tree_strong_b", "tree_hyps")
+
+
+def _trace_builders(tr):
+    """The checks about one executed trace; they share the named constants of the cases file (the
+    operation list is defined once per trace, see c09_cases.Interner)."""
+    cc = c09_cases
+    s0 = "(init_st 3)"
+    return [
+        lambda it: cc.cq_trace_c(tr, 3, it),
+        lambda it: f"all_prefixes_ok_t inv_b {s0} {cc.cq_ops_c(tr, it)}",
+        lambda it: f"all_prefixes_ok_t inv_succeeded_b {s0} {cc.cq_ops_c(tr, it)}",
+        lambda it: f"all_prefixes_ok_t inv_treefile_b {s0} {cc.cq_ops_c(tr, it)}",
+        lambda it: f"protocol_ok_run_t {s0} {cc.cq_ops_c(tr, it)}",
+        lambda it: f"all_prefixes_ok_t inv_full_b {s0} {cc.cq_ops_c(tr, it)}",
+        # T2/T3 (incl. the inductive claims conjunct) on every prefix of the traces in which no
+        # define_step re-attaches a tree (C09_tree_ownership_every_prefix_partial, evaluated)
+        lambda it: (f"negb (tree_hyps_run {s0} {cc.cq_ops_c(tr, it)}) || "
+                    f"all_prefixes_ok_t inv_tree_strong_b {s0} {cc.cq_ops_c(tr, it)}"),
+        # not a check: `false` here means that the trace satisfies the hypotheses of the partial tree
+        # theorems (counted for non-vacuity)
+        lambda it: f"negb (tree_hyps_run {s0} {cc.cq_ops_c(tr, it)})",
+    ]
+
+
 def correspondence(ctx, n_length=None, tag=""):
     n, length = n_length or ctx.scale((36, 100), (150, 160))
     traces = _traces(ctx, n, length, tag)
     ctx.traces = traces
-    checks, inv_checks, proto_checks, hyp_terms = [], [], [], []
     header = e2.HEADER.replace("model.GraphTree.", "model.GraphTree model.GraphInv model.GraphTreeInv.")
+    builders = []
     for tr, cnt, strict in traces:
         for k, v in cnt.items():
             ctx.count(k, v)
@@ -67,31 +93,28 @@ def correspondence(ctx, n_length=None, tag=""):
             key = (op[0], repr(d))
             ctx.case(key, nontrivial=(d != prev or oc != "ok"))
             prev = d
-        checks.append(e2.cq_trace(tr, 3))
-        ops = common.coq_list([e2.cq_op(t[0]) for t in tr if t[0][0] != "dispatch_error"])
-        inv_checks.append(f"all_prefixes_ok_t inv_b (init_st 3) {ops}")
-        proto_checks.append(("inv_succeeded_b", f"all_prefixes_ok_t inv_succeeded_b (init_st 3) {ops}"))
-        proto_checks.append(("inv_treefile_b", f"all_prefixes_ok_t inv_treefile_b (init_st 3) {ops}"))
-        proto_checks.append(("protocol_ok_run_t", f"protocol_ok_run_t (init_st 3) {ops}"))
-        proto_checks.append(("inv_full_b", f"all_prefixes_ok_t inv_full_b (init_st 3) {ops}"))
-        # T2/T3 (incl. the inductive claims conjunct) on every prefix of the traces in which no
-        # define_step re-attaches a tree (C09_tree_ownership_every_prefix_partial, evaluated)
-        proto_checks.append(("inv_tree_strong_b", f"negb (tree_hyps_run (init_st 3) {ops}) || "
-                                                  f"all_prefixes_ok_t inv_tree_strong_b (init_st 3) {ops}"))
-        hyp_terms.append(f"tree_hyps_run (init_st 3) {ops}")
+        builders += _trace_builders(tr)
     ctx.sample({"trace_prefix": [list(map(str, t[:2])) for t in traces[0][0][:8]]})
     fixed = [(n, tr) for n, tr in fixed_traces(ctx).items() if tr is not None]
-    fbad = common.run_cases(ctx, "e2fixed", header, [e2.cq_trace(tr, 3) for _, tr in fixed], chunk=6)
+    fbad = c09_cases.run_cases(ctx, "e2fixed", header,
+                               [(lambda it, tr=tr: c09_cases.cq_trace_c(tr, 3, it)) for _, tr in fixed], chunk=8, jobs=1)
     for b in fbad:
         ctx.add_failure("correspondence", "E2:fixed", f"E2:fixed:{fixed[b][0]}",
                         f"model and implementation disagree on the fixed witness trace '{fixed[b][0]}'",
                         witness={"ops": [list(map(str, t[:3])) for t in fixed[b][1]]})
-    bad = common.run_cases(ctx, "e2", header, checks, chunk=6)
-    ctx.traces_validated += len(checks) - len(bad)
+    # all checks about a trace live in the same cases file (3 traces per file, 4 coqc at a time)
+    npt = len(PER_TRACE)
+    allbad = c09_cases.run_cases(ctx, "e2", header, builders, chunk=3 * npt, jobs=4)
+    by_kind = {k: [] for k in PER_TRACE}
+    for b in allbad:
+        by_kind[PER_TRACE[b % npt]].append(b // npt)
+    bad = by_kind["e2"]
+    ctx.traces_validated += len(traces) - len(bad)
     for b in bad[:3]:
         tr = [t for t in traces[b][0] if t[0][0] != "dispatch_error"]
-        items = [f"({e2.cq_op(op)}, {e2.OUTC[oc]}, {e2.cq_dump(d)})" for op, oc, _, d in tr]
-        v = common.eval_terms(ctx, "e2diag", header, [f"first_bad_t 0 (init_st 3) {common.coq_list(items)}"])
+        it = c09_cases.Interner()
+        term = f"first_bad_t 0 (init_st 3) {c09_cases.cq_items_c(tr, it)}"
+        v = common.eval_terms(ctx, "e2diag", header + "\n".join(it.defs) + "\n", [term])
         import re
         m = re.search(r"Some (\d+)", v[0] or "")
         k = int(m.group(1)) if m else None
@@ -100,12 +123,18 @@ def correspondence(ctx, n_length=None, tag=""):
                         f"{tr[k][0] if k is not None else ''} -> implementation {tr[k][1:3] if k is not None else ''}",
                         witness={"ops": [list(map(str, t[:2])) for t in tr[: (k or 0) + 1]],
                                  "implementation_dump": tr[k][3] if k is not None else None})
-    _proto_failures(ctx, header, proto_checks, traces)
+    # I4 (a SUCCEEDED step has all its outputs built), RUNNING implies no stored hash, T1, the tree
+    # conjuncts under their hypotheses and the build-loop protocol, evaluated by the model on every
+    # prefix of every executed trace
+    for name in PER_TRACE[2:7]:
+        for b in by_kind[name][:1]:
+            tr = traces[b][0]
+            ctx.add_failure("correspondence", f"E2:{name}", f"E2:{name}-false-on-reachable-state",
+                            f"{name} is false on a prefix of a trace that the implementation executed",
+                            witness={"ops": [list(map(str, t[:2])) for t in tr]})
     # non-vacuity of the hypotheses of the partial tree theorems
-    hv = common.eval_terms(ctx, "treehyp", header, hyp_terms)
-    ctx.count("traces_satisfying_tree_hyps", sum(1 for v in hv if v and "true" in v))
-    bad = common.run_cases(ctx, "inv", header, inv_checks, chunk=6)
-    for b in bad[:3]:
+    ctx.count("traces_satisfying_tree_hyps", len(by_kind["tree_hyps"]))
+    for b in by_kind["inv_b"][:3]:
         tr = traces[b][0]
         ctx.add_failure("correspondence", "E2:inv_b", "E2:inv_b-false-on-reachable-state",
                         "the boolean invariant is false on a prefix of a trace that the implementation executed",
@@ -260,22 +289,6 @@ def fixed_traces(ctx):
     if getattr(ctx, "fixed", None) is None:
         ctx.fixed = {name: asyncio.run(_run_fixed(ops)) for name, ops in FIXED_TRACES.items()}
     return ctx.fixed
-
-
-def _proto_failures(ctx, header, proto_checks, traces):
-    """I4 (a SUCCEEDED step has all its outputs built), RUNNING implies no stored hash, and the hold
-    protocol, evaluated by the model on every prefix of every executed trace."""
-    bad = common.run_cases(ctx, "proto", header, [c for _, c in proto_checks], chunk=16)
-    seen = set()
-    for b in bad:
-        name = proto_checks[b][0]
-        if name in seen:
-            continue
-        seen.add(name)
-        tr = traces[b // 5][0]
-        ctx.add_failure("correspondence", f"E2:{name}", f"E2:{name}-false-on-reachable-state",
-                        f"{name} is false on a prefix of a trace that the implementation executed",
-                        witness={"ops": [list(map(str, t[:2])) for t in tr]})
 
 
 def oracle(ctx):
